@@ -108,6 +108,14 @@ Proof.
   intros Hw Hv z ->. cbn [wf_num nval] in *. unfold fits_fix, FIXMIN, FIXMAX in *. lia.
 Qed.
 
+Lemma negate_if (c : bool) x : wf_num x -> 0 <= nval x ->
+  nval (if c then negate x else x) = (if c then - nval x else nval x)
+  /\ wf_num (if c then negate x else x).
+Proof.
+  intros Hw Hv. destruct c; [|split; [reflexivity|exact Hw]].
+  apply negate_spec; [exact Hw|]. apply fits_neg_nonneg; assumption.
+Qed.
+
 Lemma QR_inj a b c d : QR a b = QR c d -> a = c /\ b = d.
 Proof. intros H. split; congruence. Qed.
 
@@ -128,7 +136,8 @@ Qed.
 
 Theorem quot_rem_spec fuel mf x y q r : wf_big x -> wf_big y ->
   quot_rem fuel mf x y = QR q r ->
-  bval y <> 0 /\ nval q = Z.quot (bval x) (bval y) /\ nval r = Z.rem (bval x) (bval y).
+  bval y <> 0 /\ nval q = Z.quot (bval x) (bval y) /\ nval r = Z.rem (bval x) (bval y)
+  /\ wf_num q /\ wf_num r.
 Proof.
   destruct x as [sa a], y as [sb b]. intros Hx Hy H.
   pose proof Hx as (Hsa & Ha & Hna). pose proof Hy as (Hsb & Hb & Hnb). cbn [fst snd] in *.
@@ -149,10 +158,13 @@ Proof.
     destruct (normalize_spec 1 [r0] Hw) as (Vn & Cn & Wn).
     assert (Vr0 : val [r0] = r0) by (cbn [val]; ring). rewrite Vr0, Z.mul_1_l in Vn.
     destruct (quot_rem_signs sa sb (val a) (val b) (val qs) r0 Hsa Hsb HA0 ltac:(lia) Hv Hr0) as [HQ HR].
-    split; [destruct Hsb as [-> | ->]; lia|]. split.
+    destruct (negate_if (sa <? 0) _ Wn ltac:(lia)) as [Vr Wr].
+    split; [destruct Hsb as [-> | ->]; lia|]. split; [|split; [|split]].
     + rewrite <- HQ. destruct (sa * sb <? 0); cbn [nval]; ring.
-    + rewrite <- HR. destruct (sa <? 0); [|exact Vn].
-      rewrite nval_negate; [rewrite Vn; reflexivity|]. apply fits_neg_nonneg; [exact Wn|lia].
+    + rewrite Vr, Vn. exact HR.
+    + assert (qs <> []) by (apply nonempty_length; destruct a; [congruence|cbn [length] in *; lia]).
+      destruct (sa * sb <? 0); (split; [cbn [fst]; auto|split; assumption]).
+    + exact Wr.
   - (* general case *)
     cbn [andb] in H.
     pose proof (hi_ge1 b) as Hh.
@@ -195,11 +207,13 @@ Proof.
     apply QR_inj in H. destruct H as [<- <-].
     destruct (quot_rem_signs sa sb (val a) (val b) (nval q2) (nval r2) Hsa Hsb HA0 HVb HA2 Hr2) as [HQ HR].
     assert (Hq2 : 0 <= nval q2) by nia.
-    split; [destruct Hsb as [-> | ->]; lia|]. split.
-    + rewrite <- HQ. destruct (sa * sb <? 0); [|reflexivity].
-      apply nval_negate. apply fits_neg_nonneg; assumption.
-    + rewrite <- HR. destruct (sa <? 0); [|reflexivity].
-      apply nval_negate. apply fits_neg_nonneg; [assumption|lia].
+    destruct (negate_if (sa * sb <? 0) _ Wq2 Hq2) as [Vq Wq].
+    destruct (negate_if (sa <? 0) _ Wr2 ltac:(lia)) as [Vr Wr].
+    split; [destruct Hsb as [-> | ->]; lia|]. split; [|split; [|split]].
+    + rewrite Vq. exact HQ.
+    + rewrite Vr. exact HR.
+    + exact Wq.
+    + exact Wr.
 Qed.
 
 (** division by zero is reported, never computed *)
